@@ -77,9 +77,27 @@ var hsNames = [3]string{"C0S0", "C1S1", "C2S2"}
 // lockstep: every message is read by the peer as soon as it can (after the write, or after the peer's own
 // handshake if that is still going on); otherwise all writes first, then all reads.
 func runSession(c *rp.Ctx, idx int, cs sessionCase, seg string, lockstep bool) (res *failure) {
+	return runSessionYield(c, idx, cs, seg, lockstep, nil)
+}
+
+// runSessionYield: yield, when set, is called before every transport read of the session (after the handshake):
+// the pair stage lets another session of the same process run there (idx < 0: nothing is registered with c.Hold).
+func runSessionYield(c *rp.Ctx, idx int, cs sessionCase, seg string, lockstep bool, yield func()) (res *failure) {
 	a, b := transport.NewPair()
 	a.In.Seg = transport.SegmenterByName(seg, int64(c.Seed)*7919+1)
 	b.In.Seg = transport.SegmenterByName(seg, int64(c.Seed)*7919+2)
+	inSession := false
+	if yield != nil {
+		for _, st := range []*transport.Stream{a.In, b.In} {
+			inner := st.Seg
+			st.Seg = func(avail int) int {
+				if inSession {
+					yield()
+				}
+				return inner(avail)
+			}
+		}
+	}
 	a.In.NoBlock, b.In.NoBlock = true, true
 	conn := map[string]*transport.Duplex{"A": a, "B": b}
 	hs := map[string]*rtmp.Handshake{
@@ -127,7 +145,7 @@ func runSession(c *rp.Ctx, idx int, cs sessionCase, seg string, lockstep bool) (
 		got, err := r.ReadMessage()
 		if err == nil {
 			kept = append(kept, held{k, s, got})
-			if len(got.Payload) <= 70000 {
+			if idx >= 0 && len(got.Payload) <= 70000 {
 				// ... and after every later case of the pass (a buffer pooled across connections)
 				c.Hold(idx, fmt.Sprintf("payload of message id %d read by %s", s.M.ID, peer[s.E]), got.Payload)
 			}
@@ -249,6 +267,7 @@ func runSession(c *rp.Ctx, idx int, cs sessionCase, seg string, lockstep bool) (
 		if done(x.E) && end[x.E] == nil {
 			// the application goes on with the session on the same connection
 			end[x.E] = rtmp.NewProtocol(t)
+			inSession = true
 		}
 		if lockstep {
 			if f := drain(); f != nil {
